@@ -8,7 +8,7 @@ use crate::verif_env::clock;
 use std::net::SocketAddrV4;
 
 pub(crate) fn any_node_full() -> Node {
-    let a: [u8; 20] = kani::any();
+    let a: [u8; 20] = kani::env();
     Node::new(Id::from(a), SocketAddrV4::new(kani::any::<u32>().into(), kani::any()))
 }
 
@@ -53,7 +53,7 @@ pub(crate) fn in_order(p: &Node, q: &Node, t: &Id) -> bool {
 #[kani::unwind(21)]
 fn c11_o1_singleton_add() {
     clock::set(0);
-    let target: [u8; 20] = kani::any();
+    let target: [u8; 20] = kani::env();
     let t = Id::from(target);
     let first = any_node_full();
     let second = any_node_full();
